@@ -49,7 +49,10 @@ class SimDevice:
                 first, rest = ans[:pos] + seq[:cut], seq[cut:] + ans[pos:]
                 self.hold.append([2, conn, rest]); self.owing[conn] = text.split(" ", 1)[0]
                 ans = first
-            if self.mode == "slowpong" and text.split(" ", 1)[0] == "PING" and ans:
+            if self.mode == "slowlogin" and text.split(" ", 1)[0] == "LOGIN" and ans:
+                # the prompt of this connection comes a few rounds late, once: nothing else may be said to the device before it came
+                self.hold.append([4, conn, ans]); self.owing[conn] = "LOGIN"; self.mode = "healthy"
+            elif self.mode == "slowpong" and text.split(" ", 1)[0] == "PING" and ans:
                 self.hold.append([3, conn, ans]); self.owing[conn] = "PING"
             else:
                 out += ans
@@ -110,6 +113,11 @@ class SimDevice:
             self.log.append((conn, verb, self._targets(verb, arg), "iacclose"))
             self.want_close.add(conn); self.mode = "healthy"
             return self.rng.choice([b"goodbye\n", b"> ", b"connection closed by foreign host\r\n", b"x"])
+        if self.mode == "readyclose" and verb not in ("LOGOUT", "PING"):      # answers, adds what looks like a login prompt, and hangs up; the NEXT connection prompts late
+            data = self._handle_healthy(conn, verb, arg)
+            self.log[-1] = self.log[-1][:3] + ("readyclose",)
+            self.want_close.add(conn); self.mode = "slowlogin"
+            return data + b"ready\n"
         if self.mode == "iacclose":        # drops the connection in the middle of a telnet sequence, once; behaves from the next connection on
             self.log.append((conn, verb, self._targets(verb, arg), "iacclose"))
             self.want_close.add(conn); self.mode = "healthy"
@@ -118,6 +126,9 @@ class SimDevice:
             self.log.append((conn, verb, self._targets(verb, arg), "hangup"))
             self.want_close.add(conn)
             return b""
+        return self._handle_healthy(conn, verb, arg)
+
+    def _handle_healthy(self, conn, verb, arg):
         if verb == "LOGOUT":
             return b"bye\n"
         if verb == "PING":
